@@ -209,7 +209,7 @@ CHECKS = {
         "(submit racing shutdown(wait=False|True), two jobs with a graceful shutdown and an independent waiter, a job with a time limit, submit after shutdown, graceful then forceful shutdown (directly and through ExecutorRegistry.shutdown_all), two submitters, spawn failure, solve_low_level with 5 s / 300 ms / no limit "
         "and with a concurrent early-exit shutdown, solve_end_to_end on a query whose first reply is sat with an abstract model so that a second, refined job is issued - alone and racing a shutdown; a solver process with a child of its own that may exit at any moment - signalling it then raises NoSuchProcess - or ignore SIGTERM, under a racing shutdown and under a time limit) every schedule with <= 1 deviation (<= 2 for the two submit-vs-shutdown races and the two child-process harnesses; thorough: <= 2 for all small harnesses) from the default schedule is executed to completion. Invariants per execution: no deadlock or livelock, no uncaught exception, "
         "every accepted future completes and its waiters get the process output, a job whose limit expired surfaces as TimeoutExpired / `unknown` and never as a result, the limit handed to the process layer is the configured one, once shutdown() has returned "
-        "nobody is still or newly waiting on a live process, submit after shutdown is refused, no process - and no child of a killed solver process - is alive at the end. A free-running pass with real threads and real echo/sleep/sh subprocesses checks the simulated protocol.",
+        "nobody is still or newly waiting on a live process, submit after shutdown is refused, no process - and no child of a killed solver process - is alive at the end. A free-running pass with real threads and real echo/sleep/sh subprocesses checks the simulated protocol, and the executor of every FunctionContext (query files in a temporary or in a --dump-smt-directory) must be registered with ExecutorRegistry and obey shutdown_all().",
         "Trusted: mc/sched.py (scheduler, shims, simulated Popen/psutil semantics incl. EBADF when cancel() closes the pipes under communicate()). Memory-model effects below Python statement granularity and real signal delivery latencies are not modelled. "
         "shutdown(wait=True) re-raising a job's own exception from _join() is tolerated (recorded, not asserted).",
         "DESIGN.md §4 C17",
